@@ -27,7 +27,19 @@ PROPS["C20"] = {
     "partial": "",
 }
 
+PROPS["C16"] = {
+    "gen": ["Parity"],
+    "trusted_base": ["astropy WCS: header <-> object conversion (a CD-matrix header is read as CDELT=1, PC=CD) and the non-linear projection applied after the linear part; exercised (pixel->world before/after within 1e-9 deg), not modelled"],
+    "assumptions": COMMON_ASSUME + ["the WCS is non-singular (det CD != 0) for the statements about the parity sign"],
+    "partial": "projection (library)",
+}
+
 LEVEL_TEXT = {
+    "C16": {
+        "text": "The header assignments of _flip_wcs_parity and _wcs_to_parity_sign are symbolically executed from image.py on every run into exact rational Lean definitions; theorems (all CD, CRPIX, heights, pixels): world(x,y) before = world(x,H-1-y) after, det negates, parity sign negates, rows reversed, ensure_negative_parity yields -1 and is idempotent, for images and data-less descriptions. Real Image (array- and PIL-backed) and ImageDescription objects with dyadic WCS are compared header-for-header with the model and checked on the sky through astropy.",
+        "note": "trusted: Lean kernel; the symbolic executor for the header fragment; astropy's WCS parsing and projection.",
+        "technique": "Lean 4 proof (ring identities over Rat) over symbolically executed source + exact differential execution",
+    },
     "C20": {
         "text": "The selection branches of SimpleFitsCollection._scan_hdus (scalar / per-file list / guess; WCS key scalar / list / default) are re-extracted from collection.py as typed Lean definitions on every run; theorems: a scalar applies to every file, a list is applied pointwise to both the reported index and the HDU read, reported = read in every branch, the guess takes the first HDU with >=2-D non-table data, short lists are errors; structural facts: descriptions/images/export_simple share one scan. The assembled model is run against collection.load / create_from_args / tile_fits on generated multi-extension collections.",
         "note": "trusted: Lean kernel; the extractor for this fragment (AST pattern + typed expression translation: a list used where an index is needed makes the generated definition ill-typed, which is reported as a broken obligation); astropy.",
